@@ -22,6 +22,8 @@ func init() {
 	register(&Rule{ID: "C18.R5", Prop: "C18", Floor: 1, Doc: "per-peer acquisition blocks (select without default)", Run: c18r5})
 	register(&Rule{ID: "C18.R6", Prop: "C18", Floor: 1, Doc: "peer insertion and inbound-cap comparison share one critical section", Run: c18r6})
 	register(&Rule{ID: "C18.R7", Prop: "C18", Floor: 3, Doc: "Close reaches ThreadGroup.Stop", Run: c18r7})
+	register(&Rule{ID: "C18.R10", Prop: "C18", Floor: 1, Doc: "every gateway handshake is reached only after a deadline covering reads was set on the connection", Run: c18r10})
+	register(&Rule{ID: "C18.R11", Prop: "C18", Floor: 1, Doc: "the subnet key of the in-flight limit is built from the address masked with the subnet's mask", Run: c18r11})
 	register(&Rule{ID: "C18.R9", Prop: "C18", Floor: 1, Doc: "goroutines registered in a function's local WaitGroup are waited for before every return that follows a registration", Run: c18r9})
 	register(&Rule{ID: "C18.R8", Prop: "C18", Floor: 1, Thorough: true, Doc: "lock order: acquired-while-held graph over the repository's mutexes is acyclic", Run: c18r8})
 }
@@ -226,6 +228,7 @@ func slotTableField(c *Ctx) *types.Var {
 // subnetSlotFns: the two Syncer methods that update the per-subnet in-flight
 // table: the one reporting a bool takes a slot, the one without results gives it back.
 func subnetSlotFns(c *Ctx) (acquire, release *types.Func) {
+	closureForm := false
 	// the table: Syncer.inflightSubnet, or else the one map[string]int held by the Syncer (directly or grouped into a
 	// limiter type) whose entries the package both increments and decrements
 	fld := slotTableField(c)
@@ -269,6 +272,12 @@ func subnetSlotFns(c *Ctx) (acquire, release *types.Func) {
 		}
 		res := f.Obj.Type().(*types.Signature).Results()
 		switch {
+		case res.Len() == 2 && isBasicKind(types.Bool)(res.At(1).Type()) && isNiladicFunc(res.At(0).Type()):
+			// the acquisition hands back the function that gives the slot back: `release, ok := s.reserve(key)`
+			if acquire != nil {
+				ir.Fail("more than one method takes a subnet slot")
+			}
+			acquire, closureForm = f.Obj, true
 		case res.Len() == 1 && isBasicKind(types.Bool)(res.At(0).Type()):
 			if acquire != nil {
 				ir.Fail("more than one method takes a subnet slot")
@@ -282,6 +291,23 @@ func subnetSlotFns(c *Ctx) (acquire, release *types.Func) {
 		}
 	}
 	slotMode = slotModeT{}
+	if acquire != nil && release == nil && closureForm {
+		// the returned literal must be the one that shrinks the table entry
+		raw := c.P.FuncOf(acquire)
+		shrinks := false
+		for _, l := range raw.Lits {
+			for _, w := range l.WritesIn(l.Body, false) {
+				if ix, ok := ast.Unparen(w.LHS).(*ast.IndexExpr); ok && (l.FieldOf(ix.X) == fld || l.FieldOf(origin(l, ix.X)) == fld) && (w.Tok == token.DEC || w.Tok == token.SUB_ASSIGN) {
+					shrinks = true
+				}
+			}
+		}
+		if shrinks {
+			release = acquire
+			slotMode = slotModeT{closure: true}
+			return
+		}
+	}
 	if acquire != nil && release == nil {
 		// one function doing both, told apart by a bool parameter: the value under which the table entry grows takes a slot
 		raw := c.P.FuncOf(acquire)
@@ -341,6 +367,7 @@ func subnetSlotFns(c *Ctx) (acquire, release *types.Func) {
 // slotModeT: when one function both takes and returns a subnet slot, the
 // position of its bool mode parameter and the value that takes a slot.
 type slotModeT struct {
+	closure    bool // the acquisition returns the releasing function
 	merged     bool
 	idx        int
 	acquireVal bool
@@ -382,7 +409,28 @@ func c18r2(c *Ctx) {
 				continue
 			}
 			key := call.Expr.Args[0]
+			var relVar types.Object
+			if slotMode.closure {
+				if as, ok := g.NodeContaining(call.Pos()).AST.(*ast.AssignStmt); ok && len(as.Lhs) == 2 {
+					relVar = f.ObjOf(as.Lhs[0])
+				}
+				if relVar == nil || relVar.Name() == "_" {
+					ob.Bad(nil, "the releasing function returned by the acquisition at %s is discarded", c.P.Pos(call.Pos()))
+					continue
+				}
+			}
 			isRel := func(fn *ir.Func, root ast.Node) bool {
+				if slotMode.closure {
+					found := false
+					ir.Walk(root, true, func(x ast.Node) {
+						if ce, ok := x.(*ast.CallExpr); ok {
+							if id, ok := ast.Unparen(ce.Fun).(*ast.Ident); ok && fn.ObjOf(id) == relVar {
+								found = true
+							}
+						}
+					})
+					return found
+				}
 				for _, rc := range fn.CallsIn(root, false) {
 					if rc.Fn == rel.Origin() && len(rc.Expr.Args) >= 1 && fn.ObjOf(rc.Expr.Args[0]) == f.ObjOf(key) && slotCallIs(fn, rc.Expr, false) {
 						return true
@@ -497,6 +545,94 @@ func c18r4(c *Ctx) {
 		all = append(all, f)
 		all = append(all, f.Lits...)
 	}
+	// a boolean field that mirrors "the channel has been closed": set to true next to every close of the channel,
+	// never set to false; testing it under the mutex is as good as the non-blocking receive from the channel
+	var flags []*types.Var
+	if st, ok := c.P.Named("threadgroup", "ThreadGroup").Underlying().(*types.Struct); ok {
+		for i := 0; i < st.NumFields(); i++ {
+			fld := st.Field(i)
+			if b, isB := fld.Type().Underlying().(*types.Basic); !isB || b.Kind() != types.Bool {
+				continue
+			}
+			okFlag, closes := true, 0
+			for _, f := range all {
+				g := f.Graph()
+				var sets []*cfgx.Node
+				for _, n := range g.Nodes {
+					if n.AST == nil {
+						continue
+					}
+					for _, w := range f.WritesIn(n.AST, false) {
+						if f.FieldOf(w.LHS) != fld {
+							continue
+						}
+						if tv, isC := f.Info().Types[w.RHS]; w.RHS != nil && isC && tv.Value != nil && tv.Value.String() == "true" {
+							sets = append(sets, n)
+						} else {
+							okFlag = false
+						}
+					}
+				}
+				for _, n := range g.Nodes {
+					if n.AST == nil {
+						continue
+					}
+					for _, call := range f.NodeCalls(n) {
+						if id, ok := call.Expr.Fun.(*ast.Ident); ok && id.Name == "close" && len(call.Expr.Args) == 1 && f.FieldOf(call.Expr.Args[0]) == closed {
+							closes++
+							paired := false
+							for _, sn := range sets {
+								if (g.DominatedByNode(n, sn) || g.DominatedByNode(sn, n)) && ls.At(f, sn) == lsHeld {
+									paired = true
+								}
+							}
+							if !paired {
+								okFlag = false
+							}
+						}
+					}
+				}
+			}
+			if okFlag && closes > 0 {
+				flags = append(flags, fld)
+			}
+		}
+	}
+	flagEdges := func(f *ir.Func, stopped bool) []*cfgx.Edge {
+		var out []*cfgx.Edge
+		for _, m := range f.Graph().Nodes {
+			if m.Block == nil || m.Block.Cond != m.AST || len(m.Succs) != 2 {
+				continue
+			}
+			e := ast.Unparen(m.AST.(ast.Expr))
+			neg := false
+			if u, ok := e.(*ast.UnaryExpr); ok && u.Op == token.NOT {
+				e, neg = ast.Unparen(u.X), true
+			}
+			for _, fl := range flags {
+				if f.FieldOf(e) == fl {
+					if stopped != neg {
+						out = append(out, m.Succs[0])
+					} else {
+						out = append(out, m.Succs[1])
+					}
+				}
+			}
+		}
+		return out
+	}
+	afterStoppedFlag := func(f *ir.Func, n *cfgx.Node) bool {
+		es := flagEdges(f, true)
+		if len(es) == 0 {
+			return false
+		}
+		_, ok := f.ReachableFromEdges(es, nil)[n]
+		return ok
+	}
+	onlyViaOpenFlag := func(f *ir.Func, n *cfgx.Node) bool {
+		es := flagEdges(f, false)
+		return len(es) > 0 && f.OnlyVia(n, es)
+	}
 	// every wg.Add / wg.Wait / close(closed) in the package
 	for _, f := range all {
 		g := f.Graph()
@@ -519,7 +655,7 @@ func c18r4(c *Ctx) {
 					c.Visit(1)
 					ob := c.Ob(f, "wg.Add-under-mu-not-closed", call.Pos())
 					held := ls.At(f, n) == lsHeld && f.Lit == nil
-					notClosed := !reachableFromClosedCase(f, n, closed)
+					notClosed := !reachableFromClosedCase(f, n, closed) && !afterStoppedFlag(f, n)
 					ob.Check(held && notClosed, nil, "WaitGroup.Add at %s must run with the mutex held (%v) and only on the branch where the closed channel is still open (%v): otherwise work is accepted after Stop or Wait races with Add", c.P.Pos(call.Pos()), held, notClosed)
 				case isWG && call.Fn.Name() == "Wait":
 					c.Visit(1)
@@ -529,7 +665,7 @@ func c18r4(c *Ctx) {
 					c.Visit(1)
 					ob := c.Ob(f, "close-once-under-mu", call.Pos())
 					held := ls.At(f, n) == lsHeld
-					notClosed := !reachableFromClosedCase(f, n, closed) && onlyViaOpenCase(f, n, closed)
+					notClosed := (!reachableFromClosedCase(f, n, closed) && onlyViaOpenCase(f, n, closed)) || (!afterStoppedFlag(f, n) && onlyViaOpenFlag(f, n))
 					ob.Check(held && notClosed, nil, "close of the closed channel at %s must run under the mutex (%v) on the default branch of a select that tests it (%v): a second Stop would panic", c.P.Pos(call.Pos()), held, notClosed)
 				}
 			}
@@ -580,6 +716,18 @@ func c18r4(c *Ctx) {
 						good = false
 					}
 				}
+			}
+		}
+	}
+	if es := flagEdges(addF, true); !good && len(es) > 0 {
+		good = true
+		var st []*cfgx.Visit
+		for _, e := range es {
+			st = append(st, cfgx.StartAfter(e, 0))
+		}
+		for _, kinds := range addF.ReturnKindsFrom(st) {
+			if kinds&^(1<<uint(ir.RetError)) != 0 {
+				good = false
 			}
 		}
 	}
@@ -1158,4 +1306,123 @@ func derefT(t types.Type) types.Type {
 		return p.Elem()
 	}
 	return t
+}
+
+func isNiladicFunc(t types.Type) bool {
+	sig, ok := t.Underlying().(*types.Signature)
+	return ok && sig.Params().Len() == 0 && sig.Results().Len() == 0
+}
+
+// c18r10: a handshake has a deadline. The goroutine that serves an inbound connection (and the dialling side) is
+// registered with the thread group before the handshake; gateway.Accept reads first, gateway.Dial writes then reads.
+// Unless a deadline covering *reads* is set on the connection before, a peer that connects and stays silent keeps the
+// goroutine — and Close, which waits for the group — blocked for ever.
+func c18r10(c *Ctx) {
+	accept := c.P.FuncObj("gateway", "Accept")
+	dial := c.P.FuncObj("gateway", "Dial")
+	n := 0
+	var units []*ir.Func
+	for _, r := range c.P.Views("syncer", ir.ExpandOpt{Key: "all"}).Roots {
+		units = append(units, r)
+		units = append(units, r.Lits...)
+	}
+	for _, f := range units {
+		// (the Syncer's own connections: a package-level helper that dials before a Syncer exists is bounded by its
+		// caller's context, not by Close)
+		if top := f.Top(); top == nil || top.Obj == nil || recvNamed(top.Obj) == nil || recvNamed(top.Obj).Obj().Name() != "Syncer" {
+			continue
+		}
+		g := f.Graph()
+		for _, hs := range f.CallsTo(false, accept, dial) {
+			if len(hs.Expr.Args) == 0 {
+				continue
+			}
+			conn := f.ObjOf(hs.Expr.Args[0])
+			if conn == nil {
+				continue
+			}
+			if f.P.Pos(hs.Pos()) != "" && strings.Contains(f.P.Pos(hs.Pos()), "_test.go") {
+				continue
+			}
+			n++
+			c.VisitGraph(f)
+			ob := c.Ob(f, "handshake-under-read-deadline", hs.Pos())
+			// deadline calls on the same connection with a non-zero time
+			sets := func(nd *cfgx.Node) bool {
+				if nd.AST == nil {
+					return false
+				}
+				if _, isDefer := nd.AST.(*ast.DeferStmt); isDefer {
+					return false
+				}
+				for _, call := range f.NodeCalls(nd) {
+					if call.Fn == nil || (call.Fn.Name() != "SetDeadline" && call.Fn.Name() != "SetReadDeadline") || len(call.Expr.Args) != 1 {
+						continue
+					}
+					if rcv := call.Recv(); rcv == nil || f.ObjOf(rcv) != conn {
+						continue
+					}
+					if cl, isLit := ast.Unparen(call.Expr.Args[0]).(*ast.CompositeLit); isLit && len(cl.Elts) == 0 {
+						continue // time.Time{} clears the deadline
+					}
+					return true
+				}
+				return false
+			}
+			hn := g.NodeContaining(hs.Pos())
+			if _, bypass := g.Reach([]*cfgx.Visit{cfgx.StartAt(g.Entry, 0)}, sets)[hn]; bypass {
+				ob.Bad(nil, "the handshake at %s can be reached without a read deadline having been set on the connection (SetDeadline / SetReadDeadline with a time): a peer that connects and sends nothing blocks this goroutine, and with it Close, for ever", c.P.Pos(hs.Pos()))
+			} else {
+				ob.OK("a deadline covering reads is set on every path to the handshake")
+			}
+		}
+	}
+	if n == 0 {
+		ir.Fail("no gateway handshake found in package syncer")
+	}
+}
+
+// c18r11: the per-subnet limit groups addresses by their *masked* prefix. A net.IPNet whose String() serves as the
+// subnet key carries ip.Mask(mask) as its IP (IPNet.String does not normalise): with the raw address every source
+// address gets a budget of its own and a /24 runs limit × 256 handlers.
+func c18r11(c *Ctx) {
+	n := 0
+	for _, f := range c.P.PkgFuncs("syncer") {
+		ir.Walk(f.Body, true, func(x ast.Node) {
+			cl, ok := x.(*ast.CompositeLit)
+			if !ok || !ir.IsNamed(f.TypeOf(cl), "net", "IPNet") {
+				return
+			}
+			var ipV, maskV ast.Expr
+			for _, el := range cl.Elts {
+				if kv, ok := el.(*ast.KeyValueExpr); ok {
+					if k, ok := kv.Key.(*ast.Ident); ok {
+						switch k.Name {
+						case "IP":
+							ipV = kv.Value
+						case "Mask":
+							maskV = kv.Value
+						}
+					}
+				}
+			}
+			if ipV == nil || maskV == nil {
+				return
+			}
+			n++
+			c.VisitGraph(f)
+			ob := c.Ob(f, "subnet-key-from-masked-address", cl.Pos())
+			good := false
+			if call, ok := ast.Unparen(origin(f, ipV)).(*ast.CallExpr); ok && len(call.Args) == 1 {
+				if fn := f.Callee(call); fn != nil && fn.Pkg() != nil && fn.Pkg().Path() == "net" && fn.Name() == "Mask" {
+					a, b := ast.Unparen(origin(f, call.Args[0])), ast.Unparen(origin(f, maskV))
+					good = sameLvalue(f, call.Args[0], maskV) || ir.ExprString(a) == ir.ExprString(b)
+				}
+			}
+			ob.Check(good, nil, "the subnet at %s is built from an address that was not masked with its own mask: the key differs per source address, so the per-subnet limit applies per address", c.P.Pos(cl.Pos()))
+		})
+	}
+	if n == 0 {
+		ir.Fail("no net.IPNet subnet key found in package syncer")
+	}
 }
